@@ -884,6 +884,10 @@ def stress_defs(prefix='K'):
     x1 = Def(prefix + 'X1', True, 'none', [], 1, [], [], [('Low', 'unit', []), ('Mid', 'unit', []), ('High', 'unit', []), ('Last', 'unit', [])])
     x1.discr = {'Low': 1, 'High': 7}
     defs.append(x1)
+    # a field-less zero-copy structure (zero-sized, unit 1) and a zero-sized one with unit 8
+    zu = Def(prefix + 'ZU', False, 'zero', ['C'], 1, [], [], [(prefix + 'ZU', 'unit', [])])
+    defs.append(zu)
+    zs('ZV', [('a', A(P('u64'), 0)), ('b', ('ty', Adt(zu, [], [])))])
     return defs
 
 
